@@ -35,11 +35,17 @@ class FaultArray(np.ndarray):
     __array_priority__ = 100
 
     def __matmul__(self, other):
+        if not isinstance(other, np.ndarray):
+            # sparse arrays, LinearOperators (implicit mode): the other operand knows how to multiply; the product is
+            # then no longer one of "the multiplication of elements" callbacks this class stands for
+            return NotImplemented if hasattr(other, "__rmatmul__") else np.asarray(self) @ other
         if FaultArray.ticker is not None:
             FaultArray.ticker.tick("matmul")
         return np.asarray(self).__matmul__(np.asarray(other)).view(FaultArray)
 
     def __rmatmul__(self, other):
+        if not isinstance(other, np.ndarray):
+            return NotImplemented if hasattr(other, "__matmul__") and not isinstance(other, (list, tuple)) else other @ np.asarray(self)
         if FaultArray.ticker is not None:
             FaultArray.ticker.tick("matmul")
         return np.asarray(other).__matmul__(np.asarray(self)).view(FaultArray)
@@ -136,3 +142,23 @@ def wrap_solver(inner, ticker):
         return inner(Y, index)
 
     return solve_sylvester
+
+
+def implicit_kwargs(problem, kwargs):
+    """Turn the kwargs of a whole-matrix ("scalar") input into implicit mode: unit eigenvectors of every block but the
+    last one, no subspace_indices, no selection on the (implicit) last block; default (direct) solver."""
+    kw = dict(kwargs)
+    kw.pop("subspace_indices", None)
+    st_ = states_of(problem)
+    last = len(st_) - 1
+    kw["subspace_eigenvectors"] = [np.eye(len(problem["assign"]))[:, s_] for s_ in st_[:-1]]
+    fd = kw.get("fully_diagonalize")
+    if isinstance(fd, dict):
+        fd = {b_: m for b_, m in fd.items() if b_ != last}
+    elif fd is not None:
+        fd = tuple(b_ for b_ in fd if b_ != last)
+    if fd:
+        kw["fully_diagonalize"] = fd
+    else:
+        kw.pop("fully_diagonalize", None)
+    return kw
